@@ -128,8 +128,11 @@ func main() {
 			us = append(us, ucase{rng.Bytes(rng.Range(1, 48)), "raw-bytes"})
 		}
 	}
-	for i := 0; i < f.Count(3); i++ {
-		us = append(us, ucase{[]byte(rng.StringOver(validAlpha+" é", 1024)), "1KiB"})
+	// 1 KiB names (17 MD5 blocks each): spread over the list so that they land in different shards
+	for i := 0; i < f.Count(2); i++ {
+		big := ucase{[]byte(rng.StringOver(validAlpha+" é", 1024)), "1KiB"}
+		at := (i*37 + 11) % len(us)
+		us = append(us[:at], append([]ucase{big}, us[at:]...)...)
 	}
 	for _, u := range us {
 		id := uuid.OfflinePlayerUUID(string(u.name))
